@@ -444,6 +444,16 @@ func (e *Engine) visitInstr(fr *frame, instr ssa.Instruction) continuation {
 		}
 		*addr = e.zero(deref(instr.Type()))
 	case *ssa.MakeSlice:
+		// range forks first, so that an out-of-range symbolic size is one
+		// panicking path instead of an enumeration of its values
+		for _, v := range []ssa.Value{instr.Len, instr.Cap} {
+			t := e.idx64(fr.get(v), v.Type())
+			if !t.IsConst() {
+				if !e.decide(e.ts.Cmp(opULe, t, e.ts.Const(64, 1<<24))) {
+					e.goPanicStr("runtime error: makeslice: len out of range")
+				}
+			}
+		}
 		n := e.concInt(fr.get(instr.Len))
 		c := e.concInt(fr.get(instr.Cap))
 		if n < 0 || c < n || c > 1<<24 {
